@@ -23,10 +23,12 @@ var (
 // This function allocates regions starting at the end of the kernel address
 // space. It should only be used during the early stages of kernel initialization.
 func EarlyReserveRegion(size uintptr) (uintptr, *kernel.Error) {
+	reqSize := size
 	size = (size + (mm.PageSize - 1)) & ^(mm.PageSize - 1)
 
-	// reserving a region of the requested size will cause an underflow
-	if size > earlyReserveLastUsed {
+	// rounding up wrapped around or reserving a region of the requested
+	// size will cause an underflow
+	if size < reqSize || size > earlyReserveLastUsed {
 		return 0, errEarlyReserveNoSpace
 	}
 
